@@ -176,6 +176,24 @@ pub fn generate(g: &mut Gen, thorough: bool) {
     for kind in ["default", "new", "plain", "plain-new"] {
         g.push(format!("S_C18C\t{kind}"), "oracle-operators-under-macro-names", true);
     }
+    // a handle stays valid however many operations the context has instantiated since
+    for kind in ["default", "plain", "plain-new"] {
+        for many in [70usize, 130, 300] {
+            let mut calls = vec![format!("O|{}", esc("helmert x=1")), format!("O|{}", esc("addone | addone"))];
+            for k in 0..many {
+                calls.push(format!("O|{}", esc(&format!("helmert x={}", k % 7))));
+            }
+            calls.push(format!("A|0|F|{data}"));
+            calls.push(format!("A|1|I|{data}"));
+            calls.push("T|0".to_string());
+            calls.push("T|1".to_string());
+            calls.push("P|1|1".to_string());
+            calls.push(format!("A|{}|F|{data}", many + 1));
+            let line = format!("{}\t{}", kind, calls.join("\t"));
+            g.push(format!("HIST\t{line}"), "hist-many-instantiations", true);
+            g.push(format!("S_C18\t{line}"), "oracle-hist-many-instantiations", true);
+        }
+    }
     for def in ["gridshift grids=test.datum", "deformation dt=10 grids=test.deformation", "gridshift grids=5458.gsb,test.datum"] {
         g.push(format!("S_C18L\t{}", crate::wire::escape(def)), "oracle-loading-while-clearing", true);
     }
